@@ -587,6 +587,8 @@ def buffer_contracts(m: P1Model):
                 continue
             inst = BUF_INSTANCE[role]
             v = B.check(name, role, LF if role == "pop-line" else SLASH if role == "trim-needle" else None)
+            if v.ok is True and role == "trim-pos" and (v.info or {}).get("not_released"):
+                res.append(Result("bad", "release", "trim-keeps-consumed", f"{name}() can return without dropping the consumed octets from the buffer: the retained input is not bounded by the unconsumed tail", v.line or 0))
             if v.ok is True:
                 res.append(Result("ok", "buffer", inst, f"{name}(): {BUF_TEXT[role]}"))
             elif v.ok is False:
